@@ -17,7 +17,7 @@ T = {
          "Oracle = RFC 5545 section 3.8 table embedded in sa/oracles; tzid_from_dt modelled by its contract; equality of decoded Python values is not decided.", "16/C02"),
  "C03": ("exploration", "interpretation of the DATE/DATE-TIME/TIME codecs on position-marker texts; bounded-domain interpretation of UTC-OFFSET and DURATION against an independent RFC reader; the combined decoder on one text of every RFC form; regex language inclusion (own NFA/DFA over re._parser ASTs); exception-escape analysis of every from_ical; scalar codecs (INTEGER beyond 2^53, FLOAT, BOOLEAN, URI, weekday, month) on concrete values",
          "Writer layout = reader slices = RFC text shape for the fixed-width codecs however they are written; UTC-OFFSET (all hours x boundary minutes/seconds x sign) and DURATION (every unit-presence pattern x boundary magnitudes x sign) encode to RFC grammar, denote the value and decode back; every RFC form is classified as the right type incl. lists/periods with a time zone; codec objects render the value they hold now; every codec's from_ical converts failures to ValueError.",
-         "UTC-OFFSET/DURATION are decided on a bounded value domain, not for all magnitudes; INTEGER/FLOAT/BINARY inverses are not decided.", "15.3/C03"),
+         "UTC-OFFSET/DURATION are decided on a bounded value domain, not for all magnitudes; INTEGER/FLOAT/BOOLEAN/URI/weekday/month are decided on concrete samples of every magnitude class (incl. beyond 2^53), BINARY on sample texts (base64 computed).", "15.3/C03"),
  "C04": ("other", "exception-escape analysis over the resolved call graph with handler subtraction, guard facts and caller-side guard binding; abstract interpretation of the parse loop on sequences with unsplittable lines and undecodable values; re-serialisation of whatever the composite decoders accept (RECUR/lists/combined decoder x member kinds); lazily evaluated generators in the interpreter",
          "For the entry points from_ical/to_ical/walk every typed risk site in the cone is under a converting handler, discharged by a dominating guard, or justified; inside a lenient component a bad line/value is recorded and dropped with everything else kept, elsewhere it is a ValueError; provider lookups return None on the external's documented exceptions.",
          "Exact on what it reports, incomplete by construction: receivers of unknown static type raise nothing; dateutil/pytz/zoneinfo internals are opaque; termination/CPU bound not decided.", "16/C04"),
